@@ -625,4 +625,315 @@ theorem replayFile_frames_then {m : Mode} {dec : Dec} (rs : List Rec) (hw : ∀ 
     rw [replayFile_frame (hw r (by simp)), ih (fun x hx => hw x (by simp [hx]))]
     simp
 
+/-! ### what each operation does to the records on disk -/
+
+/-- all records of the directory, in replay order -/
+def allRecs (dec : Dec) (s : State) : List Rec := ((dir s).map (recsOf dec)).flatten
+
+theorem allRecs_append {dec : Dec} {s : State} {e : Bytes} (h : Inv dec s)
+    (he : WFRec dec ⟨s.seq + 1, e⟩) : allRecs dec (append s e) = allRecs dec s ++ [⟨s.seq + 1, e⟩] := by
+  cases hc : s.cur with
+  | none =>
+    have hd : (⟨s.seq + 1, frame ⟨s.seq + 1, e⟩⟩ : File).data = frames [⟨s.seq + 1, e⟩] ++ [] := by
+      simp [frames]
+    have hw : ∀ r ∈ [(⟨s.seq + 1, e⟩ : Rec)], WFRec dec r := by simp [he]
+    have hr := recsOf_eq hw torn_nil hd
+    simp only [allRecs, append, hc, dir, Option.toList, List.nil_append, List.map_append, List.map_cons,
+      List.map_nil, List.flatten_append, List.flatten_cons, List.flatten_nil, List.append_nil, hr]
+  | some f =>
+    obtain ⟨rs, hw, hd⟩ := h.whole f hc
+    have hrf : recsOf dec f = rs := recsOf_eq hw torn_nil (by simpa using hd)
+    have hw' : ∀ r ∈ rs ++ [(⟨s.seq + 1, e⟩ : Rec)], WFRec dec r := by
+      intro r hr; rcases List.mem_append.mp hr with hr | hr
+      · exact hw r hr
+      · simp at hr; subst hr; exact he
+    have hd' : ({ f with data := f.data ++ frame ⟨s.seq + 1, e⟩ } : File).data
+        = frames (rs ++ [⟨s.seq + 1, e⟩]) ++ [] := by
+      simp [frames_append, frames, hd]
+    have hr' := recsOf_eq hw' torn_nil hd'
+    simp only [allRecs, append, hc, dir, Option.toList, List.map_append, List.map_cons,
+      List.map_nil, List.flatten_append, List.flatten_cons, List.flatten_nil, List.append_nil, hr', hrf,
+      List.append_assoc]
+
+theorem allRecs_flush (dec : Dec) (s : State) : allRecs dec (flush s) = allRecs dec s := by
+  unfold flush; split <;> simp_all [allRecs, dir]
+
+theorem allRecs_close (dec : Dec) (s : State) : allRecs dec (close s) = allRecs dec s := by
+  simp [allRecs, dir_close]
+
+theorem allRecs_reopen (dec : Dec) (m : Mode) (s : State) : allRecs dec (reopen m dec s) = allRecs dec s := by
+  simp [allRecs, reopen, dir, close]
+
+/-- a crash keeps a prefix of the records (it cuts the file that is being written, which is
+the last one in replay order) -/
+theorem allRecs_crash {dec : Dec} {s : State} (k : Nat) (h : Inv dec s) :
+    allRecs dec (crash Mode.fixed dec s k) <+: allRecs dec s := by
+  unfold crash
+  cases hc : s.cur with
+  | none => simp only; rw [allRecs_reopen]; exact List.prefix_refl _
+  | some f =>
+    simp only
+    obtain ⟨rs, hw, hd⟩ := h.whole f hc
+    have hrf : recsOf dec f = rs := recsOf_eq hw torn_nil (by simpa using hd)
+    generalize max s.flushed (min k f.data.length) = k'
+    have hw' : ∀ r ∈ rs.take (fitCount rs k'), WFRec dec r := fun r hr => hw r (List.mem_of_mem_take hr)
+    have hd' : ({ f with data := f.data.take k' } : File).data
+        = frames (rs.take (fitCount rs k')) ++ (cutRecs rs k').2 := by
+      simp only [hd, take_frames, cutRecs_fst]
+    have ht := cutRecs_torn rs k' (fun r hr => (hw r hr).2.1)
+    have hr' := recsOf_eq hw' ht hd'
+    rw [allRecs_reopen]
+    simp only [allRecs, dir, hc, Option.toList, List.map_append, List.map_cons, List.map_nil,
+      List.flatten_append, List.flatten_cons, List.flatten_nil, List.append_nil, hr', hrf]
+    exact (List.prefix_append_right_inj _).mpr (List.take_prefix _ _)
+
+def noCrash : List Op → Bool
+  | [] => true
+  | .crash _ :: _ => false
+  | _ :: ops => noCrash ops
+
+theorem allRecs_step {dec : Dec} {s : State} (op : Op) (h : Inv dec s)
+    (hw : ∀ e ∈ opEntries [op], WFRec dec ⟨s.seq + 1, e⟩) :
+    List.Sublist ((allRecs dec (step Mode.fixed dec s op)).map (·.entry))
+        ((allRecs dec s).map (·.entry) ++ opEntries [op])
+    ∧ (noCrash [op] = true → (allRecs dec (step Mode.fixed dec s op)).map (·.entry)
+        = (allRecs dec s).map (·.entry) ++ opEntries [op]) := by
+  cases op with
+  | append e =>
+    have := allRecs_append h (hw e (by simp [opEntries]))
+    simp only [step, this, opEntries, List.map_append, List.map_cons, List.map_nil]
+    exact ⟨List.Sublist.refl _, fun _ => trivial⟩
+  | checkpoint e =>
+    have := allRecs_append h (hw e (by simp [opEntries]))
+    simp only [step, allRecs_close, allRecs_flush, this, opEntries, List.map_append, List.map_cons,
+      List.map_nil]
+    exact ⟨List.Sublist.refl _, fun _ => trivial⟩
+  | flush => simp [step, allRecs_flush, opEntries]
+  | reopen => simp [step, allRecs_reopen, opEntries]
+  | setSync b => simp [step, allRecs, dir, opEntries]
+  | crash k =>
+    simp only [step, opEntries, List.append_nil, noCrash]
+    exact ⟨(List.IsPrefix.sublist (allRecs_crash k h)).map _, by simp⟩
+
+theorem noCrash_cons (op : Op) (ops : List Op) :
+    noCrash (op :: ops) = (noCrash [op] && noCrash ops) := by
+  cases op <;> simp [noCrash]
+
+theorem allRecs_foldl {dec : Dec} : ∀ (ops : List Op) (s : State) (n : Nat), Inv dec s → s.seq ≤ n →
+    n + ops.length < 256 ^ 8 → (∀ e ∈ opEntries ops, WFEntry dec e) →
+    List.Sublist ((allRecs dec (ops.foldl (step Mode.fixed dec) s)).map (·.entry))
+        ((allRecs dec s).map (·.entry) ++ opEntries ops)
+    ∧ (noCrash ops = true → (allRecs dec (ops.foldl (step Mode.fixed dec) s)).map (·.entry)
+        = (allRecs dec s).map (·.entry) ++ opEntries ops)
+  | [], s, n, _, _, _, _ => by simp [opEntries]
+  | op :: ops, s, n, h, hn, hN, he => by
+    rw [opEntries_cons] at he ⊢
+    have hN' : n + 1 + ops.length < 256 ^ 8 := by simp at hN; omega
+    have h1 := inv_step op h hn (by omega) (fun e he' => he e (List.mem_append_left _ he'))
+    have hs := allRecs_step op h (fun e he' =>
+      ⟨by show s.seq + 1 < 256 ^ 8; omega, (he e (List.mem_append_left _ he')).1,
+        (he e (List.mem_append_left _ he')).2⟩)
+    have ih := allRecs_foldl ops _ (n + 1) h1.1 h1.2 hN' (fun e he' => he e (List.mem_append_right _ he'))
+    simp only [List.foldl_cons]
+    refine ⟨?_, ?_⟩
+    · have := List.Sublist.trans ih.1 (List.Sublist.append_right hs.1 (opEntries ops))
+      simpa [List.append_assoc] using this
+    · intro hnc
+      rw [noCrash_cons, Bool.and_eq_true] at hnc
+      rw [ih.2 hnc.2, hs.2 hnc.1, List.append_assoc]
+
+/-! ### the history specification on the model's own observations -/
+
+/-- the records a history appends, under the sequence the model assigns at that moment -/
+def appRecs (m : Mode) (dec : Dec) : State → List Op → List Rec
+  | _, [] => []
+  | s, op :: ops => (opEntries [op]).map (fun e => ⟨s.seq + 1, e⟩) ++ appRecs m dec (step m dec s op) ops
+
+theorem step_seq_append (m : Mode) (dec : Dec) (s : State) (e : Bytes) :
+    (step m dec s (.append e)).seq = s.seq + 1 ∧ (step m dec s (.checkpoint e)).seq = s.seq + 1 := by
+  constructor
+  · simp [step, append_seq]
+  · show (flush (append s e)).seq = s.seq + 1
+    rw [flush_seq, append_seq]
+
+theorem appended_trace (m : Mode) (dec : Dec) : ∀ (ops : List Op) (s : State),
+    appended ops (traceObs m dec s ops) = appRecs m dec s ops
+  | [], _ => rfl
+  | op :: ops, s => by
+    have ih := appended_trace m dec ops (step m dec s op)
+    cases op <;>
+      simp [appended, traceObs, appRecs, opEntries, ih, (step_seq_append m dec s _).1,
+        (step_seq_append m dec s _).2]
+
+theorem appRecs_entries (m : Mode) (dec : Dec) : ∀ (ops : List Op) (s : State),
+    (appRecs m dec s ops).map (·.entry) = opEntries ops
+  | [], _ => rfl
+  | op :: ops, s => by
+    rw [opEntries_cons]
+    simp [appRecs, appRecs_entries m dec ops, List.map_map, Function.comp_def]
+
+theorem allRecs_step_rec {dec : Dec} {s : State} (op : Op) (h : Inv dec s)
+    (hw : ∀ e ∈ opEntries [op], WFRec dec ⟨s.seq + 1, e⟩) :
+    List.Sublist (allRecs dec (step Mode.fixed dec s op))
+      (allRecs dec s ++ (opEntries [op]).map (fun e => ⟨s.seq + 1, e⟩)) := by
+  cases op with
+  | append e =>
+    have := allRecs_append h (hw e (by simp [opEntries]))
+    simp [step, this, opEntries]
+  | checkpoint e =>
+    have := allRecs_append h (hw e (by simp [opEntries]))
+    simp [step, allRecs_close, allRecs_flush, this, opEntries]
+  | flush => simp [step, allRecs_flush, opEntries]
+  | reopen => simp [step, allRecs_reopen, opEntries]
+  | setSync b => simp [step, allRecs, dir, opEntries]
+  | crash k =>
+    simp only [step, opEntries, List.map_nil, List.append_nil]
+    exact List.IsPrefix.sublist (allRecs_crash k h)
+
+theorem allRecs_foldl_rec {dec : Dec} : ∀ (ops : List Op) (s : State) (n : Nat), Inv dec s → s.seq ≤ n →
+    n + ops.length < 256 ^ 8 → (∀ e ∈ opEntries ops, WFEntry dec e) →
+    List.Sublist (allRecs dec (ops.foldl (step Mode.fixed dec) s))
+      (allRecs dec s ++ appRecs Mode.fixed dec s ops)
+  | [], s, n, _, _, _, _ => by simp [appRecs]
+  | op :: ops, s, n, h, hn, hN, he => by
+    rw [opEntries_cons] at he
+    have hN' : n + 1 + ops.length < 256 ^ 8 := by simp at hN; omega
+    have h1 := inv_step op h hn (by omega) (fun e he' => he e (List.mem_append_left _ he'))
+    have hs := allRecs_step_rec op h (fun e he' =>
+      ⟨by show s.seq + 1 < 256 ^ 8; omega, (he e (List.mem_append_left _ he')).1,
+        (he e (List.mem_append_left _ he')).2⟩)
+    have ih := allRecs_foldl_rec ops _ (n + 1) h1.1 h1.2 hN' (fun e he' => he e (List.mem_append_right _ he'))
+    simp only [List.foldl_cons, appRecs]
+    have := List.Sublist.trans ih (List.Sublist.append_right hs _)
+    simpa [List.append_assoc] using this
+
+theorem isSubseq_of_sublist : ∀ {a b : List Bytes}, List.Sublist a b → isSubseq a b = true
+  | _, _, .slnil => by simp [isSubseq]
+  | a, _ :: _, .cons x h => by
+    cases a with
+    | nil => simp [isSubseq]
+    | cons y ys =>
+      simp only [isSubseq]
+      split
+      · rename_i heq
+        have : y = x := by simpa using heq
+        subst this
+        exact isSubseq_of_sublist ((List.sublist_cons_self _ _).trans h)
+      · exact isSubseq_of_sublist h
+  | _ :: _, _ :: _, .cons_cons x h => by
+    simp only [isSubseq, beq_self_eq_true, if_true]
+    exact isSubseq_of_sublist h
+
+/-- filtering the appended records by "was delivered" gives back exactly the delivered
+records, because entries are pairwise distinct -/
+theorem filter_of_sublist : ∀ {l app : List Rec}, List.Sublist l app → (app.map (·.entry)).Nodup →
+    app.filter (fun r => (l.map (·.entry)).contains r.entry) = l
+  | _, _, .slnil, _ => rfl
+  | l, _ :: app, .cons a h, hnd => by
+    rw [List.map_cons, List.nodup_cons] at hnd
+    have hna : (l.map (·.entry)).contains a.entry = false := by
+      rw [Bool.eq_false_iff]; intro hc
+      rw [List.contains_iff_mem] at hc
+      exact hnd.1 ((h.map _).subset hc)
+    rw [List.filter_cons, hna]; simp only [Bool.false_eq_true, if_false]
+    exact filter_of_sublist h hnd.2
+  | _ :: l, _ :: app, .cons_cons a h, hnd => by
+    rw [List.map_cons, List.nodup_cons] at hnd
+    rw [List.filter_cons]
+    simp only [List.map_cons, List.contains_cons, beq_self_eq_true, Bool.true_or, if_true]
+    congr 1
+    rw [← filter_of_sublist h hnd.2]
+    apply List.filter_congr
+    intro r hr
+    have : (r.entry == a.entry) = false := by
+      rw [beq_eq_false_iff_ne]; intro heq
+      exact hnd.1 (heq ▸ List.mem_map.mpr ⟨r, hr, rfl⟩)
+    have h2 := filter_of_sublist h hnd.2
+    simp only [this, Bool.false_or]
+    rw [h2]
+
+theorem traceObs_ok (m : Mode) (dec : Dec) : ∀ (ops : List Op) (s : State),
+    ops.length = (traceObs m dec s ops).length ∧
+    (List.zip ops (traceObs m dec s ops)).all (fun (op, (ret, cur)) =>
+      match op with
+      | .append _ => ret == some cur
+      | _ => ret == none) = true
+  | [], _ => by simp [traceObs]
+  | op :: ops, s => by
+    have ih := traceObs_ok m dec ops (step m dec s op)
+    refine ⟨by simp [traceObs, ih.1], ?_⟩
+    simp only [traceObs, List.zip_cons_cons, List.all_cons, ih.2, Bool.and_true]
+    cases op <;> simp
+
+/-! ### helpers of the property theorems (numbering of appended records, replay after an intact prefix, Bool/Prop bridges, toy decoders of the concrete witnesses) -/
+
+/-- records `q+1, q+2, …` for the entries `es` — what consecutive `append`s write -/
+def number (q : Nat) : List Bytes → List Rec
+  | [] => []
+  | e :: es => ⟨q + 1, e⟩ :: number (q + 1) es
+
+theorem number_entries : ∀ (q : Nat) (es : List Bytes), (number q es).map (·.entry) = es
+  | _, [] => rfl
+  | q, e :: es => by simp [number, number_entries (q + 1) es]
+
+theorem number_seqs : ∀ (q : Nat) (es : List Bytes),
+    (number q es).map (·.seq) = (List.range es.length).map (fun i => q + 1 + i)
+  | _, [] => rfl
+  | q, e :: es => by
+    simp only [number, List.map_cons, List.length_cons, List.range_succ_eq_map, number_seqs (q + 1) es,
+      List.map_map]
+    simp only [List.cons.injEq, Nat.add_zero, true_and]
+    apply List.map_congr_left; intro i _; simp; omega
+
+theorem foldl_append_cur : ∀ (es : List Bytes) (s : State) (f : File), s.cur = some f →
+    (es.foldl append s).cur = some ⟨f.name, f.data ++ frames (number s.seq es)⟩
+      ∧ (es.foldl append s).closed = s.closed ∧ (es.foldl append s).seq = s.seq + es.length
+  | [], s, f, h => by simp [number, frames, h]
+  | e :: es, s, f, h => by
+    have h1 : (append s e).cur = some ⟨f.name, f.data ++ frame ⟨s.seq + 1, e⟩⟩ := by simp [append, h]
+    have := foldl_append_cur es (append s e) _ h1
+    simp only [List.foldl_cons, number, frames, append_seq] at this ⊢
+    refine ⟨by rw [this.1]; simp, by rw [this.2.1]; simp [append], by rw [this.2.2]; simp; omega⟩
+
+theorem replayDir_allRecs {dec : Dec} {s : State} (h : Inv dec s) :
+    replayDir Mode.fixed dec (image s) = (allRecs dec s, End.ok) :=
+  replayDir_good (m := Mode.fixed) rfl (dir s) (fun f hf => (h.ok.1 f hf).1)
+
+theorem replay_pre_then {dec : Dec} (pre : List Rec) (hw : ∀ r ∈ pre, WFRec dec r) (rest : Bytes)
+    (P : List Rec × End → Prop)
+    (h : ∀ fuel, P (pre ++ (replayFile Mode.fixed dec (fuel + 1) rest).1,
+        (replayFile Mode.fixed dec (fuel + 1) rest).2)) :
+    P (replay Mode.fixed dec (frames pre ++ rest)) := by
+  have hlen := frames_length_ge pre
+  have : (frames pre ++ rest).length + 1 = pre.length + (((frames pre ++ rest).length - pre.length) + 1) := by
+    simp only [List.length_append]; omega
+  unfold replay
+  rw [this, replayFile_frames_then pre hw]
+  exact h _
+
+theorem strictIncr_iff : ∀ (l : List Nat), strictIncr l = true ↔ l.Pairwise (· < ·)
+  | [] => by simp [strictIncr]
+  | [a] => by simp [strictIncr]
+  | a :: b :: rest => by
+    have ih := strictIncr_iff (b :: rest)
+    simp only [strictIncr, Bool.and_eq_true, decide_eq_true_eq, ih, List.pairwise_cons]
+    constructor
+    · rintro ⟨hab, h1, h2⟩
+      refine ⟨fun x hx => ?_, h1, h2⟩
+      rcases List.mem_cons.mp hx with rfl | hx
+      · exact hab
+      · exact Nat.lt_trans hab (h1 x hx)
+    · rintro ⟨h0, h1, h2⟩
+      exact ⟨h0 b (by simp), h1, h2⟩
+
+theorem delivered_zero (rs : List Rec) : delivered 0 rs = rs := by
+  simp [delivered]
+
+/-- toy decoders for the concrete witnesses: every entry is one byte / is length-prefixed -/
+def dec1 : Dec := fun _ => some 1
+def decLen : Dec := fun b =>
+  match b with
+  | [] => none
+  | n :: rest => if n.toNat ≤ rest.length then some (n.toNat + 1) else none
+
 end SgModel.Wal
